@@ -32,9 +32,10 @@ type CInv struct {
 }
 
 type C14Case struct {
-	Files []CFile  `json:"files"`
-	Seq   []CInv   `json:"seq"`
-	Lab   []string `json:"labels,omitempty"`
+	DotRoot bool     `json:"dot_root,omitempty"` // the CRS root directory itself is named .crs
+	Files   []CFile  `json:"files"`
+	Seq     []CInv   `json:"seq"`
+	Lab     []string `json:"labels,omitempty"`
 }
 
 func onlyDigits(v string) string {
@@ -131,8 +132,9 @@ var versionPool = []string{"4.1.0", "4.10.2", "v4.1.0", "4.2.0-rc1", "4.2.0-RC1"
 
 func genC14(t *rapid.T) C14Case {
 	var c C14Case
-	paths := []string{"rules/REQUEST-901-INITIALIZATION.conf", "rules/REQUEST-932-APPLICATION-ATTACK-RCE.conf", "crs-setup.conf.example", "plugins/empty-config.conf", "rules/restricted-files.data.example"}
-	n := rapid.IntRange(1, 4).Draw(t, "nfiles")
+	paths := []string{"rules/REQUEST-901-INITIALIZATION.conf", ".devcontainer/modsecurity/extra.conf", "crs-setup.conf.example", "plugins/empty-config.conf", "rules/restricted-files.data.example", "rules/REQUEST-932-APPLICATION-ATTACK-RCE.conf"}
+	n := rapid.IntRange(1, 5).Draw(t, "nfiles")
+	c.DotRoot = rapid.IntRange(0, 5).Draw(t, "dotroot") == 0
 	for i := 0; i < n; i++ {
 		c.Files = append(c.Files, genCFile(t, paths[i], strings.Contains(paths[i], "setup") || i == 0))
 	}
@@ -185,6 +187,9 @@ func checkC14(c C14Case) Outcome {
 			tree[f.Path] = f.content("", "")
 		}
 		root := sb.Path("crs")
+		if c.DotRoot {
+			root = sb.Path("work/.crs")
+		}
 		if err := tree.Write(root); err != nil {
 			panic(err)
 		}
